@@ -461,3 +461,76 @@ def finish(rep, obligations, trusted_base, replay_only=False):
 	with open(os.path.join(OUT or VERIF, 'evidence', rep.pid + '.json'), 'w') as fh:
 		json.dump(ev, fh, indent=1)
 	return rc
+
+
+# ------------------------------------------------------------------ call histories
+_FRESH_SCRIPT = r'''
+import sys, pickle, warnings
+warnings.simplefilter('ignore')
+sys.path.insert(0, sys.argv[1])
+import importlib
+mod, fn, args, kw = pickle.load(sys.stdin.buffer)
+try:
+	r = getattr(importlib.import_module(mod), fn)(*args, **kw)
+	out = ('ok', r)
+except Exception as e:
+	out = ('error', type(e).__name__)
+sys.stdout.buffer.write(pickle.dumps(out))
+'''
+
+
+def _flat(x):
+	"""Numbers of a result, in order (tuples / lists / dicts / arrays flattened); anything else by repr."""
+	import numpy as np
+	if isinstance(x, dict):
+		return [v for k in sorted(x, key=repr) for v in [repr(k)] + _flat(x[k])]
+	if isinstance(x, (list, tuple, np.ndarray)):
+		return [v for e in x for v in _flat(e)]
+	if isinstance(x, (int, float, np.integer, np.floating)):
+		return [float(x)]
+	return [repr(x)]
+
+
+def history_check(rep, stream, calls, theorem=None, rtol=1e-9):
+	"""`calls`: list of (module name, function name, args tuple, kwargs dict) of a DETERMINISTIC function of its arguments. They are evaluated
+	in this order in this process (so each call runs after the earlier ones), and each one again alone in a fresh interpreter. The answer to a
+	call is a function of the arguments of that call: any difference means that what the library returns depends on what it was asked before
+	(module-level memo, cache keyed by too few arguments, shared mutable default ...), and then for one of the two the documented result
+	fails -- reported with the history as the failing input."""
+	import importlib, pickle, subprocess, warnings
+	from concurrent.futures import ThreadPoolExecutor
+	here = []
+	for mod, fn, args, kw in calls:
+		try:
+			with warnings.catch_warnings():
+				warnings.simplefilter('ignore')
+				here.append(('ok', getattr(importlib.import_module(mod), fn)(*args, **kw)))
+		except Exception as e:
+			here.append(('error', type(e).__name__))
+	def fresh(c):
+		p = subprocess.run([sys.executable, '-c', _FRESH_SCRIPT, os.path.join(REPO, 'src')], input=pickle.dumps(c), capture_output=True, timeout=600)
+		if p.returncode != 0:
+			raise Infra('fresh interpreter failed: ' + p.stderr.decode()[-300:])
+		return pickle.loads(p.stdout)
+	with ThreadPoolExecutor(max_workers=8) as ex:
+		alone = list(ex.map(fresh, calls))
+	for i, (c, a, b) in enumerate(zip(calls, here, alone)):
+		rep.case(stream, {'call': '%s.%s' % (c[0], c[1]), 'args': repr(c[2])[:300], 'kwargs': repr(c[3])[:300], 'position': i}, nontrivial=i > 0)
+		rep.count('call-history:' + c[1]); rep.tol_cmp += 1
+		fa, fb = (_flat(a[1]) if a[0] == 'ok' else [a[1]]), (_flat(b[1]) if b[0] == 'ok' else [b[1]])
+		same = a[0] == b[0] and len(fa) == len(fb) and all(
+			(x == y) if isinstance(x, str) or isinstance(y, str) else (abs(x - y) <= rtol * max(1.0, abs(x), abs(y)) or (x != x and y != y)) for x, y in zip(fa, fb))
+		if not same:
+			rep.diff(stream, '%s.%s%s after %d earlier call(s) returns %s; the same call alone in a fresh interpreter returns %s (earlier calls: %s)' % (
+				c[0], c[1], repr(c[2])[:200] + repr(c[3])[:200], i, repr(a[1])[:200], repr(b[1])[:200], [repr(x[2])[:80] + repr(x[3])[:80] for x in calls[:i]][-3:]),
+				{'history': [[x[0], x[1], repr(x[2]), repr(x[3])] for x in calls[:i + 1]]}, py=repr(a[1])[:400], model=repr(b[1])[:400], oracle=True, theorem=theorem)
+
+
+def one_argument_histories(base, keys, bump=None):
+	"""base: kwargs dict. The base call, then one call per key with only that argument changed, then the base call again."""
+	bump = bump or (lambda k, v: v * 1.5 + 1 if isinstance(v, (int, float)) else v)
+	out = [dict(base)]
+	for k in keys:
+		out.append(dict(base, **{k: bump(k, base[k])}))
+	out.append(dict(base))
+	return out
